@@ -63,7 +63,7 @@ def _gen_shard0(arg):
             c, p, path = case['c'], case['p'], case['path']
             allowed = {dc.key(o) for o in case['allowed']}
             res['cases'] += 1
-            if not dc.gamma_alpha_ok(c):
+            if not dc.gamma_alpha_ok(c) or not dc.typed_gamma_alpha_ok(c, dt):
                 res['selfcheck'].append(c)
             nontrivial = case['allowed'] != [{'ok': False, 'e': 'WrongType'}]
             if nontrivial:
@@ -106,7 +106,7 @@ def _rand_records0(arg):
                     conc = dc.wire_value(conc)
                 except (TypeError, ValueError):
                     path = 'write'
-            c = dc.cand_abs(conc, dc.is_literal)
+            c = dc.relativise(dc.cand_abs(conc, dc.is_literal), conc, dt, path)
             p = dc.NONE
             prev = None
             if path != 'call' and rnd.random() < 0.4:
